@@ -9,7 +9,9 @@ extern "C" void __sanitizer_set_death_callback(void (*)(void)) __attribute__((we
 namespace grv {
 
 std::atomic<long> g_passes(0), g_iter_worst_permille(0);
+void (*g_rule_sink)(int ev, long a, long b, long c, long d) = 0;      // set by a command that records rule events
 static void iter_sink(int ev, long a, long b, long c, long d) {
+    if (g_rule_sink) g_rule_sink(ev, a, b, c, d);
     if (ev != 1) return;
     g_passes.fetch_add(1, std::memory_order_relaxed);
     const long bound = d * (b + c + 2);
